@@ -10,6 +10,17 @@ import pacti.terms.polyhedra.polyhedra as P
 _real_linprog = P.linprog
 CALLS = []
 ENABLED = [False]
+LAST_VARS = [None]
+_real_t2p = P.PolyhedralTermList.termlist_to_polytope
+
+
+def _t2p(terms, context):
+    res = _real_t2p(terms, context)
+    LAST_VARS[0] = [str(v) for v in res[0]]
+    return res
+
+
+P.PolyhedralTermList.termlist_to_polytope = staticmethod(_t2p)
 
 
 def _wrapped(c, A_ub=None, b_ub=None, **kw):
@@ -20,8 +31,11 @@ def _wrapped(c, A_ub=None, b_ub=None, **kw):
             A = np.asarray(A_ub, dtype=float)
             bb = [float(x) for x in np.asarray(b_ub, dtype=float).ravel()]
             rows = [[float(x) for x in r] for r in A] if A.ndim == 2 else []
+            names = LAST_VARS[0] if LAST_VARS[0] is not None and len(LAST_VARS[0]) == len(cc) else None
+            if names is None:
+                names = [f"?{i}" for i in range(len(cc))]
             CALLS.append({
-                "c": cc, "A": rows, "b": bb, "status": int(res["status"]),
+                "vars": names, "c": cc, "A": rows, "b": bb, "status": int(res["status"]),
                 "fun": None if res["fun"] is None else float(res["fun"]),
                 "slack": None if res.get("slack") is None else [float(x) for x in np.asarray(res["slack"]).ravel()],
             })
@@ -55,7 +69,7 @@ def coq_table(calls):
         if "unrecordable" in k:
             continue
         rows = cf.lst(f"({cf.qlist(frac(x) for x in r)}, {cf.q(frac(b))})" for r, b in zip(k["A"], k["b"]))
-        prob = f"(mkLP {cf.qlist(frac(x) for x in k['c'])} {rows})"
+        prob = f"(mkLP {cf.svars(k['vars'])} {cf.qlist(frac(x) for x in k['c'])} {rows})"
         st = k["status"]
         if st == 0 and k["fun"] is not None:
             sl = k["slack"] if k["slack"] is not None else []
